@@ -182,6 +182,9 @@ type c11Run struct {
 	final map[string]string
 	cfg   core.VNodeConfig
 	tagAt []int // log index -> step index in progress
+	// heads of the run that never crashed whose commitments already disagree with the stored ledger
+	// (head hash -> cause): such a head is not a crash effect
+	uncrashedBad map[string]string
 }
 
 // c11Record runs the history once on crashdb-wrapped databases.
@@ -208,12 +211,31 @@ func c11Record(pl *c11Plan) (*c11Run, error) {
 	for ctx := 0; ctx < 3; ctx++ {
 		run.base[ctx] = core.VSnapshot(inner[ctx])
 	}
+	run.uncrashedBad = map[string]string{}
 	rec.Start()
+	explained := false
 	for i, st := range pl.steps {
 		rec.SetTag(fmt.Sprint(i))
 		if err := c11Do(s.n, st); err != nil {
 			return nil, fmt.Errorf("uncrashed run, step %d (%s): %v", i, st.Name, err)
 		}
+		rec.Stop()
+		head := s.n.Zone().HeaderChain().CurrentHeader()
+		if err := s.n.VCheckCommitments(head); err != nil {
+			// the only accepted explanation is the C06 finding: a block of this history spends an
+			// output at the very height at which it is trimmed
+			for _, b := range c11Blocks(pl.steps[:i+1]) {
+				if len(s.n.VSpentAndTrimmed(b)) > 0 {
+					explained = true
+				}
+			}
+			cause := "unexplained"
+			if explained {
+				cause = "history-spends-output-at-its-trim-height"
+			}
+			run.uncrashedBad[string(head.Hash().Bytes())] = strings.SplitN(err.Error(), ":", 2)[0] + ":" + cause
+		}
+		rec.Start()
 	}
 	rec.Stop()
 	run.final = s.n.VCanon()
@@ -270,8 +292,17 @@ func c11CheckImage(run *c11Run, k int) (string, string, string) {
 	}
 	defer n.Close()
 	head := n.Zone().HeaderChain().CurrentHeader()
+	inheritedKey, inheritedDesc := "", ""
 	if err := n.VCheckCommitments(head); err != nil {
-		return "head-inconsistent:" + strings.SplitN(err.Error(), ":", 2)[0] + ":before-" + nextClass, fmt.Sprintf("%s: after restart the reported zone head (height %d) does not describe the stored state: %v", where, head.NumberU64(2), err), nextClass
+		class := strings.SplitN(err.Error(), ":", 2)[0]
+		bad, ok := run.uncrashedBad[string(head.Hash().Bytes())]
+		if !ok || !strings.HasPrefix(bad, class+":") {
+			return "head-inconsistent:" + class + ":before-" + nextClass, fmt.Sprintf("%s: after restart the reported zone head (height %d) does not describe the stored state: %v", where, head.NumberU64(2), err), nextClass
+		}
+		// the node that never crashed reports the same head with the same disagreement: not a crash
+		// effect. Reported once under its own key; the remaining oracles still run on this image.
+		inheritedKey = "head-inconsistent-without-crash:" + bad
+		inheritedDesc = fmt.Sprintf("%s: the reported zone head (height %d) does not describe the stored state, and the node that never crashed has the same head with the same disagreement: %v", where, head.NumberU64(2), err)
 	}
 	for i := step; i < len(run.plan.steps); i++ {
 		var derr error
@@ -289,7 +320,7 @@ func c11CheckImage(run *c11Run, k int) (string, string, string) {
 	if d := c10CanonDiff(n.VCanon(), run.final); d != "" {
 		return "converge:" + strings.SplitN(d, ":", 2)[0] + ":before-" + nextClass, fmt.Sprintf("%s: after restart and completing the history the node differs from the one that never crashed:\n%s", where, c11Short(d)), nextClass
 	}
-	return "", "", nextClass
+	return inheritedKey, inheritedDesc, nextClass
 }
 
 func runC11(c *vx.Ctx) {
@@ -383,7 +414,9 @@ func runC11dbg(c *vx.Ctx) {
 	core.VScaleParams(core.VR1)
 	p := c.Part("dbg")
 	p.States = 1
-	pl, err := c11BuildPlan(1)
+	variant := 1
+	fmt.Sscan(os.Getenv("C11_V"), &variant)
+	pl, err := c11BuildPlan(variant)
 	if err != nil {
 		c.HarnessError(err.Error())
 		return
